@@ -42,6 +42,29 @@ func init() {
 		},
 	})
 	register(&Property{
+		ID: "C55",
+		Explanation: "Decides the status plumbing from an unreadable item to the exit code, not which operating-system errors occur: (incomplete-status) the closure installed as Archiver.Error in runBackup clears the captured `success` flag on every path, nothing sets the flag back to true, every return of runBackup that can yield a nil error after Archiver.Snapshot lies behind the success==true edge, ErrInvalidSourceData is returned only after Snapshot succeeded (the snapshot is saved first), and inaccessible targets reported by collectTargets clear the flag without aborting the run; (exit-table) by specialised evaluation of main: with err == ErrInvalidSourceData every path reaches Exit with status 3, with err == nil status 0, with any other non-nil error never 0; the command's error reaches that switch unchanged (overwritten only when nil or ErrOK; the backup command's RunE returns runBackup's result itself); (skip-implies-hook) in every Archiver method, after a source operation (fs.FS / fs.File / toNoder method, save, saveDir, saveTree, nodeFromFileInfo, dirPathToNode, dirToNodeAndEntries) failed, no return with a possibly-nil error is reachable without a call of Archiver.error (directly or through a closure that always calls it); save's error filter turns only os.ErrNotExist into nil (vanished files do not count, as the statement says); treeSaver.save drops a failed item only after its error hook, which is Archiver.Error. Not decided: errors inside the file saver's chunk loop reach the tree saver through the future's result (flow through a channel), and cobra returns RunE's error unchanged.",
+		Assumptions: commonAssumptions,
+		Technique:   "static analysis: path-sensitive reachability with nil-ness facts from failure edges + specialised evaluation of main's exit switch + CFG edge cuts (go/ssa)",
+		Run: func(c *eng.Ctx) {
+			ruleErrorHook(c)
+			ruleExitTable(c)
+			ruleSkipImpliesHook(c)
+		},
+		Controls: []Control{
+			{Name: "hook-forgets-flag-for-filtered-errors", File: "cmd/restic/cmd_backup.go",
+				Old: "		success = false\n		reterr := progressReporter.Error(item, err)", New: "		reterr := progressReporter.Error(item, err)\n		if reterr != nil {\n			success = false\n		}", Rule: "incomplete-status"},
+			{Name: "incomplete-status-lost-when-scanner-ok", File: "cmd/restic/cmd_backup.go",
+				Old: "	if !success {\n		return ErrInvalidSourceData\n	}", New: "	if !success && werr != nil {\n		return ErrInvalidSourceData\n	}", Rule: "incomplete-status"},
+			{Name: "fatal-test-before-invalid-source", File: "cmd/restic/main.go",
+				Old: "	case err == ErrInvalidSourceData:\n		exitCode = 3", New: "	case err == ErrInvalidSourceData:\n		exitCode = 1", Rule: "exit-table"},
+			{Name: "permission-errors-treated-as-vanished", File: "internal/archiver/archiver.go",
+				Old: "		if errors.Is(err, os.ErrNotExist) {\n			return nil\n		}", New: "		if errors.Is(err, os.ErrNotExist) || errors.Is(err, os.ErrPermission) {\n			return nil\n		}", Rule: "skip-implies-hook"},
+			{Name: "stat-error-excludes-silently", File: "internal/archiver/archiver.go",
+				Old: "			debug.Log(\"stat() on opened file %v returned error: %v\", target, err)\n			return filterError(err)", New: "			debug.Log(\"stat() on opened file %v returned error: %v\", target, err)\n			return futureNode{}, true, nil", Rule: "skip-implies-hook"},
+		},
+	})
+	register(&Property{
 		ID: "C47",
 		Explanation: "Decides the structural half of the blob cache contract: (cache-locks) every access to Cache.c, Cache.free and Cache.inProgress holds Cache.mu (evict is the LRU callback and runs inside LRU calls); (lru-calls-locked) every method call on the simplelru instance is made with mu held; (budget-symmetry) `free` is changed only in add (minus the entry's size, after a loop that evicts while size > free, so free stays >= 0) and in evict (plus the evicted entry's size), both sizes computed by the same cap(blob)+overhead expression, and entries larger than the whole cache are refused before anything is evicted; (inprogress-cleanup) GetOrCompute registers the id in inProgress before unlocking, every path that leaves after registration deletes the entry and closes the channel exactly via the deferred function, and waiters re-check the cache after the channel is closed. Not decided: that the LRU library evicts in recency order, and at-most-once computation per id under all interleavings.",
 		Assumptions: commonAssumptions,
